@@ -293,6 +293,9 @@ def step (st : St) (op impl : List String) : St × List String :=
     let sid := nat! sid
     ({ st with policy := (sid, nat! rt, nat! rv) :: st.policy.filter (·.1 != sid),
                exempt := (st.sent.filter (·.2.1 == sid)).map (·.1) ++ st.exempt, pending := some (op, impl) }, [])
+  | ["bytes", sid] =>
+    (st, if impl.head? == some "ok" then [] else
+      [s!"[C01,C06,C18] stream {sid}: the chunks queued by an accepted write do not carry, in order, the bytes of the written buffer ({" ".intercalate impl})"])
   | "ora" :: _ => (st, [])
   | ["wret", wid] => ({ st with rets := st.rets ++ [(nat! wid, impl)] }, [])
   | ["rret", _] => ({ st with rrets := st.rrets ++ [impl] }, [])
